@@ -1,4 +1,47 @@
 From Coq Require Import ZArith List.
-From PV Require Import Base.U64 C12.C12_Model C12.C12_Proofs.
-Theorem c12_placeholder : True. Proof. exact placeholder. Qed.
-Print Assumptions c12_placeholder.
+From PV Require Import Base.U64 C12.C12_Model C12.C12_Mem C12.C12_Proofs.
+Theorem sorted_map_lookup_in_bounds : forall m a k ip inn bp bn,
+  mem_bytes m -> mem_wf m ->
+  validb (lens m) a 32 = true ->
+  load64 m a = Ok ip -> load64 m (a + 8) = Ok inn -> load64 m (a + 16) = Ok bp -> load64 m (a + 24) = Ok bn ->
+  validb (lens m) ip inn = true -> validb (lens m) bp bn = true ->
+  (0 <= inn)%Z -> (0 <= bp)%Z -> (0 <= bn)%Z -> (bp + bn < W64)%Z ->
+  exists pos, map_find cfg_final m a k = Ok pos /\ (0 <= pos <= inn / 32)%Z.
+Proof. exact map_find_in_bounds. Qed.
+Print Assumptions sorted_map_lookup_in_bounds.
+Theorem slice_anchor_in_bounds : forall off length bp bn p n,
+  (0 <= off < W64)%Z -> (0 <= length < W64)%Z -> (0 <= bp)%Z -> (0 <= bn)%Z -> (bp + bn < W64)%Z ->
+  anchor cfg_final off length bp bn = (p, n) ->
+  (p = 0%Z /\ n = 0%Z) \/ (n = length /\ p = (bp + off)%Z /\ (bp <= p)%Z /\ (p + n <= bp + bn)%Z).
+Proof. exact anchor_in_bounds. Qed.
+Print Assumptions slice_anchor_in_bounds.
+Theorem slice_anchor_prefix_refuted :
+  exists off length bp bn p n, anchor cfg_shipped off length bp bn = (p, n) /\ (0 < n)%Z /\ (bp + bn < p)%Z.
+Proof. exact anchor_shipped_out_of_bounds. Qed.
+Print Assumptions slice_anchor_prefix_refuted.
+Theorem string_sv_in_bounds : forall p n p' n',
+  (0 <= n < W64)%Z -> sv_of cfg_final p n = (p', n') -> p' = p /\ (0 <= n' <= n)%Z.
+Proof. exact sv_in_bounds. Qed.
+Print Assumptions string_sv_in_bounds.
+Theorem string_sv_prefix_refuted : forall p, sv_of cfg_shipped p 0 = (p, MAX64).
+Proof. exact sv_shipped_empty_string. Qed.
+Print Assumptions string_sv_prefix_refuted.
+Theorem checked_accept_only_after_compare : forall hstep c sh m v t st,
+  sh_checked sh = true ->
+  deserialize hstep c sh m v = Ok (t, st) -> t <> 0%Z ->
+  exists t1 m1 v1 m2,
+    ebc m v (sh_size sh) = Ok (t1, m1, v1) /\
+    validate_checksum hstep m1 v1 t1 (sh_size sh) = Ok (true, m2).
+Proof. exact checked_accept_requires_valid_checksum. Qed.
+Print Assumptions checked_accept_only_after_compare.
+Theorem checked_compare_covers : forall hstep m v t size okc m',
+  validate_checksum hstep m v t size = Ok (okc, m') ->
+  exists stored m1 m2 h1 body,
+    load32 m t = Ok stored /\ store32 m t 0 = Ok m1 /\ hash_iov hstep m1 t (i_el v) = Ok m2 /\
+    load32 m2 t = Ok h1 /\ load m2 t size = Ok body /\
+    okc = (stored =? hash_ext hstep h1 body)%Z.
+Proof. exact validate_checksum_spec. Qed.
+Print Assumptions checked_compare_covers.
+Theorem checked_rejects_alteration_is_refuted : ~ checked_rejects_alteration.
+Proof. exact checked_rejects_alteration_refuted. Qed.
+Print Assumptions checked_rejects_alteration_is_refuted.
